@@ -144,7 +144,7 @@ class Ctx:
             return float(self.concrete[name])
         if name in self.inputs:
             return self.inputs[name]
-        p = Poly.angle(name, angle_denom) if angle_denom else Poly.real(name)
+        p = Poly.angle(name, angle_denom) if angle_denom else Poly.new_real(name)
         self.inputs[name] = p
         return p
 
@@ -153,7 +153,7 @@ class Ctx:
             return int(self.concrete[name])
         if name in self.inputs:
             return self.inputs[name]
-        p = Poly.integer(name)
+        p = Poly.new_int(name)
         self.inputs[name] = p
         return p
 
